@@ -479,6 +479,28 @@ func (h *Hist) step() {
 			k := ks[r.intn(len(ks))]
 			h.W("write", k, h.past[k][r.intn(len(h.past[k])-1)])
 		}
+	case "rename-reset":
+		// a pure rename (same bytes under another path) committed, then a reset across that commit: the two
+		// snapshots have the same number of entries and the same blob ids, only the paths differ
+		if f, ok := h.pickTracked(); ok {
+			if data, on := h.obs.Files[f]; on {
+				g := h.randPath()
+				if _, exists := h.obs.Files[g]; !exists && g != f {
+					h.X(tz, "add", ".")
+					h.X(tz, "commit", "-m", "before rename")
+					h.X(tz, "rm", f)
+					h.W("write", g, data)
+					h.X(tz, "add", g)
+					h.X(tz, "commit", "-m", "rename")
+					if h.cfg.PreReset {
+						sampleReflog(h)
+					}
+					h.X(tz, "reset", r.pick([]string{"--mixed", "--hard", "--mixed", "--soft"}), "HEAD@{1}")
+					h.X(tz, "ls-files", "-s")
+					h.X(tz, "status")
+				}
+			}
+		}
 	case "rewrite-same":
 		if f, ok := h.pickFile(); ok {
 			h.W("write", f, h.obs.Files[f])
@@ -541,17 +563,26 @@ func (h *Hist) step() {
 		var args []string
 		n := 1 + r.intn(3)
 		for i := 0; i < n; i++ {
-			switch y := r.intn(10); {
+			switch y := r.intn(12); {
+			case y == 10:
+				// Goit's own files, in every spelling (`add` must skip them however they are named)
+				meta := r.pick([]string{".goit", ".goit/HEAD", ".goit/index", ".goit/config", ".goit/refs/heads/main", ".goit/objects", ".goit/logs/HEAD"})
+				args = append(args, r.pick([]string{meta, "./" + meta, meta + "/", "./" + meta + "/", h.comp() + "/../" + meta, ".//" + meta}))
+			case y == 11:
+				// an existing file or directory under a non-normalised spelling
+				if f, ok := h.pickFile(); ok {
+					args = append(args, r.pick([]string{"./" + f, ".//" + f, "./" + f + "/", strings.Replace(f, "/", "//", 1), strings.Replace(f, "/", "/./", 1)}))
+				}
 			case y < 4:
 				if f, ok := h.pickFile(); ok {
 					args = append(args, f)
 				}
 			case y < 6:
 				if d, ok := h.pickDir(); ok {
-					args = append(args, d)
+					args = append(args, r.pick([]string{d, d, d + "/", "./" + d}))
 				}
 			case y < 7:
-				args = append(args, ".")
+				args = append(args, r.pick([]string{".", ".", "./", "./."}))
 			case y < 9:
 				if t, ok := h.pickTracked(); ok {
 					args = append(args, t)
